@@ -6,7 +6,11 @@
    `cglob` = the global-scope snippet keys given to the real UpdateGlobalConfig (run with
    the same keyword list) and the Custom* fields of haproxy's Global afterwards.
    `ctadds`/`ctdflt`/`ctobs`: the same for config-tcp-service through the real
-   UpdateTCPPortConfig on a new TCPServicePort (tcp.CustomConfig). *)
+   UpdateTCPPortConfig on a new TCPServicePort (tcp.CustomConfig).
+   `cwritten` (cases that also run the real templates and writeToDisk): the bytes found in
+   the written haproxy.cfg between the line the template emits before the snippets of the
+   backend (a cookie line the harness provokes) and the line after them (a config-proxy
+   line): they must be `written` of the emitted lines, byte for byte -- write = identity. *)
 From Coq Require Export NArith List String.
 From HI Require Export Lib.Snippet_Strs Model.Snippet.
 Export ListNotations.
@@ -14,7 +18,8 @@ Export ListNotations.
 Record ccase := {
   cid : N; ckws : list string; cadds : list (N * string); cdflt : option string;
   cobs : list string; cglob : option (global_keys * global_out);
-  ctadds : list (N * string); ctdflt : option string; ctobs : list string }.
+  ctadds : list (N * string); ctdflt : option string; ctobs : list string;
+  cwritten : option string }.
 
 Definition gout_eqb (a b : global_out) : bool :=
   str_list_eqb (o_global a) (o_global b) && str_list_eqb (o_defaults a) (o_defaults b) &&
@@ -24,6 +29,10 @@ Definition gout_eqb (a b : global_out) : bool :=
 Definition ccase_ok (c : ccase) : bool :=
   str_list_eqb (backend_custom (ckws c) (cadds c) (cdflt c)) (cobs c) &&
   str_list_eqb (tcp_custom (ckws c) (ctadds c) (ctdflt c)) (ctobs c) &&
+  match cwritten c with
+  | None => true
+  | Some w => String.eqb w (written (backend_custom (ckws c) (cadds c) (cdflt c)))
+  end &&
   match cglob c with
   | None => true
   | Some (g, o) => gout_eqb (global_custom (ckws c) g) o
